@@ -24,6 +24,7 @@ pub struct VacantEntry<'a, P, T> {
 pub struct OccupiedEntry<'a, P, T> {
     pub(super) node: &'a mut Node<P, T>,
     pub(super) prefix: P, // needed to replace the prefix on the thing if we perform insert.
+    pub(super) count: &'a mut usize, // needed to keep the number of elements up to date on remove.
 }
 
 impl<P, T> Entry<'_, P, T> {
@@ -413,7 +414,8 @@ impl<P, T> OccupiedEntry<'_, P, T> {
     /// # #[cfg(not(feature = "ipnet"))]
     /// # fn main() {}
     /// ```
-    pub fn remove(&mut self) -> T {
+    pub fn remove(self) -> T {
+        *self.count -= 1;
         self.node.value.take().unwrap()
     }
 }
